@@ -39,6 +39,7 @@ type appWeights struct {
 	unstakeSecs                                 []int
 	maxAppsSlack                                []int // MaxApplications = genesis apps + one of these
 	honestTransfer                              int   // out of 10 transfers, this many are drawn as clean ones (staked app -> key without record, own signature)
+	preferUnstake                               func(addrHex string) bool // optional: staked applications the begin-unstake generator picks half of the time
 }
 
 func genAppWorld(rt *rapid.T, wt appWeights) *appWorld {
@@ -337,6 +338,11 @@ func (w *appWorld) genTx(rt *rapid.T, n *chain.Node, v appView, wt appWeights) a
 				msg.Value, len(msg.Chains), w.dir.name(chain.Addr(signer)), w.dir.name(chain.Addr(claimed)))}
 	case 3: // begin unstake
 		pool := v.keysWith(w.appKeys, isStaked)
+		if wt.preferUnstake != nil {
+			if pref := v.keysWith(w.appKeys, func(r appRec, ok bool) bool { return isStaked(r, ok) && wt.preferUnstake(hx(r.app.Address)) }); len(pref) > 0 && uniformN(rt, "preferred", 2) == 0 {
+				pool = pref
+			}
+		}
 		if len(pool) == 0 || uniformN(rt, "anyKey", 8) == 0 {
 			pool = w.appKeys
 		}
